@@ -214,6 +214,21 @@ def history(draw, focus='general', max_ops=24, large=False):
         def spread(o):
             return [((x * k + i) % u if isinstance(x, int) and not isinstance(x, bool) and x >= 0 and j > 0 and o[0] not in ('insert',) else x) for j, (i, x) in enumerate(zip(range(len(o)), o))]
         ops = [tuple(spread(list(o))) for o in ops]
+    if draw(st.integers(0, 5)) == 0:
+        # "try again after a refusal": a children assignment that names a newcomer v and is refused for a reason that has nothing
+        # to do with ids (the owner itself is in the list); then the owner's tree gains another task with v's id; then v comes
+        # back through another route (append / parent / insert) and must be refused - whatever the refused call left behind
+        dup = [(a, b) for a in range(u) for b in range(u) if a != b and ids[a] == ids[b]]
+        rest = [i for i in range(u)]
+        if dup:
+            v, w = draw(st.sampled_from(dup))
+            q = draw(st.sampled_from([i for i in rest if i not in (v, w)] or rest))
+            third = draw(st.sampled_from([('append', q, v, ''), ('set_parent', v, q, ''), ('insert', q, v, 0, '')]))
+            retry = [('set_children', q, [v, q], 'list', ''), ('append', q, w, ''), third]
+            if draw(st.booleans()):
+                pre = list(pre) + retry
+            else:
+                ops = list(ops) + retry
     case = {'ids': ids, 'nw': NW, 'held': draw(st.sampled_from([0, 0, 1, 2])), 'iter': draw(st.integers(0, 3)) == 0,
             'sub': draw(st.integers(0, 3)) == 0, 'ops': [list(o) for o in pre] + [list(o) for o in ops]}
     if strids:
